@@ -160,6 +160,9 @@ def crosscut_schemas():
             {"type": "string", "minLength": 2, "maxLength": 2}, {"type": "array", "minItems": 1, "maxItems": 1},
             {"type": "integer", "exclusiveMinimum": 1, "exclusiveMaximum": 2}, {"type": "number", "minimum": 3, "maximum": 2},
             {"type": "string", "minLength": 1, "maxLength": 0}, {"type": "integer", "minimum": 5, "exclusiveMaximum": 5}]
+    # const and enum together: both hold
+    out += [{"const": 1, "enum": [2, 3]}, {"const": 2, "enum": [2, 3]}, {"type": "string", "const": "a", "enum": ["b"]},
+            {"const": True, "enum": [1]}, {"type": "integer", "const": 3, "enum": [3, 4], "maximum": 3}]
     # length keywords of several sized types in one schema (only those of the declared type speak about its values)
     out += [{"type": "array", "maxItems": 1, "maxLength": 5}, {"type": "string", "minLength": 2, "minItems": 0},
             {"type": "array", "minItems": 2, "minProperties": 0, "items": {"type": "integer"}},
